@@ -35,16 +35,62 @@ def run(prog, ctx):
     # ------------------------------------------------------------------ D1
     n_uses = 0
     dim_param = {}     # function -> name of its dimension variable
+    # roles, not names: the level vector is the first parameter of the public entry get_point_coord_for_each_dim; in the helpers it
+    # is whichever parameter the entry's level vector is passed to (propagated along the calls)
+    entry = prog.func(SD + "." + LEVELVEC_FUNCS[0])
+    eparams = [p for p in entry.params if p != entry.self_name]
+    if not eparams:
+        raise AnalysisError("anchor vanished: level-vector parameter of %s" % entry.qual)
+    lvname = {LEVELVEC_FUNCS[0]: eparams[0]}
+    work = [LEVELVEC_FUNCS[0]]
+    while work:
+        cur = work.pop()
+        fcur = prog.func(SD + "." + cur)
+        for call in R.calls_in(fcur.node):
+            if isinstance(call.func, ast.Attribute) and call.func.attr in LEVELVEC_FUNCS and call.func.attr not in lvname:
+                callee = prog.func(SD + "." + call.func.attr)
+                cpar = [p for p in callee.params if p != callee.self_name]
+                for k, a in enumerate(call.args):
+                    if any(isinstance(y, ast.Name) and y.id == lvname[cur] for y in ast.walk(a)) and k < len(cpar):
+                        lvname.setdefault(call.func.attr, cpar[k])
+                for kw in call.keywords:
+                    if isinstance(kw.value, ast.Name) and kw.value.id == lvname[cur] and kw.arg in cpar:
+                        lvname[call.func.attr] = kw.arg
+                if call.func.attr in lvname:
+                    work.append(call.func.attr)
+    for name in LEVELVEC_FUNCS:
+        if name not in lvname:
+            raise AnalysisError("anchor vanished: the level vector no longer reaches %s.%s" % (SD, name))
+    # the dimension parameter of a helper: the parameter its level vector is indexed with
+    dim_of = {}
+    for name in LEVELVEC_FUNCS:
+        fi = prog.func(SD + "." + name)
+        for n in ast.walk(fi.node):
+            if isinstance(n, ast.Subscript) and isinstance(n.value, ast.Name) and n.value.id == lvname[name] and isinstance(n.slice, ast.Name) \
+                    and n.slice.id in fi.params:
+                dim_of.setdefault(name, n.slice.id)
+    for _round in range(len(LEVELVEC_FUNCS)):
+        for name in LEVELVEC_FUNCS:
+            if name in dim_of:
+                continue
+            fi = prog.func(SD + "." + name)
+            for call in R.calls_in(fi.node):
+                if isinstance(call.func, ast.Attribute) and call.func.attr in dim_of and call.func.attr in LEVELVEC_FUNCS:
+                    callee = prog.func(SD + "." + call.func.attr)
+                    cpar = [p for p in callee.params if p != callee.self_name]
+                    pos_d = cpar.index(dim_of[call.func.attr])
+                    if pos_d < len(call.args) and isinstance(call.args[pos_d], ast.Name) and call.args[pos_d].id in fi.params \
+                            and any(isinstance(a, ast.Name) and a.id == lvname[name] for a in call.args):
+                        dim_of.setdefault(name, call.args[pos_d].id)
     for name in LEVELVEC_FUNCS:
         fi = prog.func(SD + "." + name)
         ctx.touch(fi)
-        if "levelvec" not in fi.params:
-            raise AnalysisError("anchor vanished: parameter levelvec of %s" % fi.qual)
-        rebound = [n for n in walk_local(fi.node) if isinstance(n, ast.Name) and n.id == "levelvec" and isinstance(n.ctx, ast.Store)]
+        LV = lvname[name]
+        rebound = [n for n in walk_local(fi.node) if isinstance(n, ast.Name) and n.id == LV and isinstance(n.ctx, ast.Store)]
         idx_names = set()
         bad = []
         for n in ast.walk(fi.node):
-            if not (isinstance(n, ast.Name) and n.id == "levelvec" and isinstance(n.ctx, ast.Load)):
+            if not (isinstance(n, ast.Name) and n.id == LV and isinstance(n.ctx, ast.Load)):
                 continue
             n_uses += 1
             par = getattr(n, "_parent", None)
@@ -63,8 +109,9 @@ def run(prog, ctx):
                 # pass-through: the same dimension variable must be handed on
                 callee = prog.func(SD + "." + par.func.attr)
                 cpar = [p for p in callee.params if p != callee.self_name]
-                pos_lv = cpar.index("levelvec")
-                pos_d = cpar.index("d") if "d" in cpar else None
+                pos_lv = cpar.index(lvname[par.func.attr])
+                dname = dim_of.get(par.func.attr)
+                pos_d = cpar.index(dname) if dname in cpar else None
                 ok = par.args.index(n) == pos_lv and pos_d is not None and pos_d < len(par.args) and isinstance(par.args[pos_d], ast.Name)
                 if ok:
                     idx_names.add(par.args[pos_d].id)
@@ -73,12 +120,12 @@ def run(prog, ctx):
             else:
                 bad.append((n, "`%s` uses the whole level vector" % src(par)[:90]))
         if rebound:
-            bad.append((rebound[0], "levelvec is re-bound inside the function"))
+            bad.append((rebound[0], "the level vector `%s` is re-bound inside the function" % LV))
         if len(idx_names) > 1:
             bad.append((fi.node, "the level vector is indexed with different variables %s" % sorted(idx_names)))
         dim_param[name] = sorted(idx_names)[0] if idx_names else None
         ctx.check(not bad, "C03.D1", R.key_of(fi, "levelvec-only-own-dimension"), fi.loc(bad[0][0]) if bad else fi.loc(),
-                  "the level vector is used only as levelvec[%s] (current dimension) or passed on with it" % dim_param[name],
+                  "the level vector is used only as %s[%s] (current dimension) or passed on with it" % (LV, dim_param[name]),
                   "the 1-D point selection depends on more than the component level of its own dimension: %s" % "; ".join(w for (_n, w) in bad))
     ctx.floor("C03.D1", n_uses, 8, "uses of levelvec in the point selection")
     # cross-dimension flow: a container that lives across the dimension loops must not be filled under a test on / from a
@@ -90,7 +137,7 @@ def run(prog, ctx):
     for call in R.calls_in(gpc.node):
         if isinstance(call.func, ast.Attribute) and call.func.attr in LEVELVEC_FUNCS:
             for a in call.args:
-                if isinstance(a, ast.Name) and a.id != "levelvec":
+                if isinstance(a, ast.Name) and a.id != lvname[LEVELVEC_FUNCS[0]]:
                     fed_back.add(a.id)
     tainted = []
     for n in cg.nodes:
@@ -108,7 +155,8 @@ def run(prog, ctx):
         if not outside:
             continue
         guards = [g for (g, gn) in R.dominating_guards(gpc, n, tmg) if gn.kind == "test"]
-        dep = any(any(x == ("n", "levelvec") for x in subterms(g)) for g in guards) or any(x == ("n", "levelvec") for x in subterms(tmg.term(n.ast.value)))
+        LV0 = ("n", lvname[LEVELVEC_FUNCS[0]])
+        dep = any(any(x == LV0 for x in subterms(g)) for g in guards) or any(x == LV0 for x in subterms(tmg.term(n.ast.value)))
         if dep:
             tainted.append((root.id, n))
     ctx.check(not tainted, "C03.D1", R.key_of(gpc, "no-cross-dimension-flow"), gpc.loc(tainted[0][1].ast) if tainted else gpc.loc(),
@@ -120,7 +168,9 @@ def run(prog, ctx):
     gp = prog.func(SD + ".get_point_coord_for_each_dim")
     c = cfg_of(gp)
     tm = Terms(gp.node, max_depth=0)
-    appends = [x for x in R.calls_in(gp.node, method="append") if isinstance(x.func.value, ast.Name) and x.func.value.id == "points_dim"]
+    # role of the per-dimension point list: the local list that interval end points (`<interval>.start` / `<interval>.end`) are appended to
+    appends = [x for x in R.calls_in(gp.node, method="append") if isinstance(x.func.value, ast.Name) and x.args
+               and isinstance(x.args[0], ast.Attribute) and x.args[0].attr in ("start", "end")]
     cond_apps = [x for x in appends if len(R.enclosing_loops(x)) >= 2]
     first_apps = [x for x in appends if len(R.enclosing_loops(x)) == 1]
     ctx.floor("C03.D2", len(cond_apps) + len(first_apps), 2, "appends to the per-dimension point list")
@@ -270,7 +320,14 @@ def run(prog, ctx):
     for st in walk_local(gs.node):
         if isinstance(st, ast.Assign) and isinstance(st.targets[0], ast.Subscript) and R.self_attr(st.targets[0].value, "self") == "max_level_dict":
             k = tmg.term(st.targets[0].slice)
-            if k == ("copy", "tuple", ("tuple", ("n", "d"), ("n", "i"))):
+            dname = dim_of.get("get_subtraction_value")
+            vcall = st.value if isinstance(st.value, ast.Call) else None
+            if isinstance(st.value, ast.Name):
+                bdef = R.reaching_unique_def(gs, st.value.id, st.value)
+                vcall = bdef.value if bdef is not None and bdef.kind == "assign" and isinstance(bdef.value, ast.Call) else None
+            argn = {a.id for a in (vcall.args if vcall is not None else []) if isinstance(a, ast.Name)}
+            if k[0] == "copy" and k[1] == "tuple" and k[2][0] == "tuple" and len(k[2]) == 3 and k[2][1] == ("n", dname) \
+                    and k[2][2][0] == "n" and k[2][2][1] in gs.params and k[2][2][1] != dname and {dname, k[2][2][1]} <= argn:
                 okk = True
     ctx.check(okk, "C03.D5", R.key_of(gs, "max-level-key"), gs.loc(), "max_level_dict is keyed by (dimension, position)",
               "max_level_dict is no longer keyed by (d, i) of the interval it describes")
